@@ -549,3 +549,160 @@ def run_check(check, tier, seed, replay_path=None, cases_override=None):
         f"nontrivial_distinct={len(stats.keys)} discarded={stats.discarded} split={stats.oracle_split} "
         f"excluded_known={sum(stats.excluded_known.values())} violations={len(by_sig)} wall={wall:.1f}s rc={rc}")
     return rc
+
+
+# ------------------------------------------------------------------------------------------------
+# In-process (Rust/proptest) checks
+
+
+class RustCheck(Check):
+    """A check whose generation, oracle and shrinking run inside the Rust harness (`vcheck <sub>`),
+    linked against the repository's libwild / linker-utils built with hooks on."""
+    needs_harness = True
+    sub = None  # vcheck subcommand
+    shards = 16
+
+    def strategy(self, tier):  # not used
+        raise NotImplementedError
+
+    def run_replay_case(self, case):
+        p = subprocess.run([self.harness_bin, self.sub, "--replay", json.dumps(case)],
+                           stdout=subprocess.PIPE, stderr=subprocess.PIPE, text=True, timeout=600)
+        if p.returncode != 0:
+            raise Inconclusive(f"vcheck {self.sub} --replay failed: {p.stderr[-2000:]}")
+        out = json.loads(p.stdout)
+        if out["violations"]:
+            v = out["violations"][0]
+            raise Violation(v["signature"], v["message"], None)
+        return {"nontrivial": True}
+
+    def run_case(self, case, ctx):
+        return self.run_replay_case(case)
+
+
+def run_rust_check(check, tier, seed, replay_path=None, cases_override=None):
+    t0 = time.time()
+    os.makedirs(EVIDENCE_DIR, exist_ok=True)
+    ev_path = os.path.join(EVIDENCE_DIR, f"{check.prop}.json")
+    try:
+        if getattr(check, "needs_wild", False):
+            build_wild()
+        check.harness_bin = build_harness()
+    except Inconclusive as e:
+        log(f"INCONCLUSIVE property={check.prop}: {e}")
+        return 2
+    known = load_known(check.prop)
+    if replay_path:
+        rec = json.load(open(replay_path))
+        try:
+            check.run_replay_case(rec["case"])
+            print("replay passed")
+            return 0
+        except Violation as v:
+            print(f"VIOLATION property={check.prop} replay={replay_path}\n  {v.signature}: {v.message}")
+            return 1
+    stats = Stats()
+    violations = []
+    # Replay tier.
+    rdir = os.path.join(VERIF, "replays", check.prop)
+    entries = []
+    if os.path.isdir(rdir):
+        for fn in sorted(os.listdir(rdir)):
+            if fn.endswith(".json"):
+                entries.append((os.path.join(rdir, fn), json.load(open(os.path.join(rdir, fn)))["case"], None))
+    for e in known:
+        if e.get("case") is not None:
+            entries.append((None, e["case"], e))
+    for path, case, e in entries:
+        try:
+            check.run_replay_case(case)
+            if e is not None and e["status"] == "known":
+                log(f"note: known finding '{e['signature']}' did not reproduce on this tree")
+        except Violation as v:
+            if e is not None and e["status"] == "known" and sig_matches(e["signature"], v.signature):
+                print(f"KNOWN-FINDING: property={check.prop} {e['what']}", flush=True)
+            else:
+                violations.append({"signature": v.signature, "message": v.message, "detail": None, "case": case})
+    stats.extra["replayed"] = len(entries)
+    n_cases = cases_override or (check.quick_cases if tier == "quick" else check.thorough_cases)
+    shards = max(1, min(check.shards, NWORKERS))
+    known_sigs = [e["signature"] for e in known if e["status"] == "known"]
+    procs = []
+    for i in range(shards):
+        wseed = int.from_bytes(hashlib.sha256(f"{check.prop}/{seed}/{i}".encode()).digest()[:8], "big") >> 1
+        cmd = [check.harness_bin, check.sub, "--seed", str(wseed), "--cases", str(max(1, n_cases // shards)),
+               "--shard", str(i), "--shards", str(shards)]
+        if tier == "thorough":
+            cmd.append("--thorough")
+        for s in known_sigs:
+            cmd += ["--known", s]
+        procs.append(subprocess.Popen(cmd, stdout=subprocess.PIPE, stderr=subprocess.PIPE, text=True))
+    inconclusive = []
+    extra = {}
+    for p in procs:
+        try:
+            out, err = p.communicate(timeout=check.case_timeout * 60)
+        except subprocess.TimeoutExpired:
+            p.kill()
+            inconclusive.append("vcheck shard timed out")
+            continue
+        if p.returncode != 0:
+            inconclusive.append(f"vcheck exited {p.returncode}: {err[-1500:]}")
+            continue
+        o = json.loads(out)
+        stats.evaluations += o["evaluations"]
+        stats.keys |= set(o.get("nontrivial_keys", []))
+        stats.extra["distinct_nontrivial_sum"] = stats.extra.get("distinct_nontrivial_sum", 0) + o["distinct_nontrivial"]
+        stats.classes.update(o["classes"])
+        stats.samples.extend(o["samples"][:2])
+        for k, v in o.get("extra", {}).items():
+            if isinstance(v, (int, float)) and not isinstance(v, bool):
+                extra[k] = extra.get(k, 0) + v
+            else:
+                extra.setdefault(k, v)
+        for v in o["violations"]:
+            violations.append({"signature": v["signature"], "message": v["message"], "detail": None,
+                               "case": v["case"]})
+    by_sig = {}
+    for v in violations:
+        by_sig.setdefault(v["signature"], v)
+    rc = 0
+    lines = []
+    for sig, v in by_sig.items():
+        path = write_failure(check.prop, v)
+        lines.append(f"VIOLATION property={check.prop} replay={path}")
+        lines.append(f"  signature: {sig}")
+        lines.append(f"  {v['message'][:2000]}")
+        rc = 1
+    wall = time.time() - t0
+    # Shards use disjoint seeds; distinct non-trivial cases are counted per shard by key and the
+    # harness reports only the count, so the sum is an upper bound only if keys collide across
+    # shards; the class table gives the conservative number of distinct *classes*.
+    distinct = stats.extra.pop("distinct_nontrivial_sum", 0)
+    coverage = {
+        "evaluations": stats.evaluations,
+        "distinct_nontrivial": distinct,
+        "distinct_classes": len(stats.classes),
+        "rule": check.rule,
+        "samples": stats.samples[:8] or [{"note": "none"}],
+        "classes": dict(stats.classes.most_common(80)),
+        "shards": shards,
+        "technique": check.technique,
+    }
+    coverage.update(extra)
+    coverage.update(stats.extra)
+    if inconclusive:
+        coverage["inconclusive"] = inconclusive[:4]
+    evidence = {"property_id": check.prop, "tier": tier, "seed": seed, "level": check.level,
+                "coverage": coverage, "assumptions": list(check.assumptions), "wall_s": round(wall, 2),
+                "violations": len(by_sig)}
+    with open(ev_path, "w") as f:
+        json.dump(evidence, f, indent=1)
+    for line in lines:
+        print(line, flush=True)
+    if rc == 0 and inconclusive:
+        log(f"INCONCLUSIVE property={check.prop}: {inconclusive[0]}")
+        rc = 2
+    log(f"[{check.prop}] tier={tier} seed={seed} evaluations={stats.evaluations} distinct_nontrivial={distinct} "
+        f"classes={len(stats.classes)} violations={len(by_sig)} wall={wall:.1f}s rc={rc}")
+    return rc
